@@ -265,3 +265,19 @@ func jsonMarshal(v interface{}) (string, error) {
 	b, err := json.Marshal(v)
 	return string(b), err
 }
+
+// saveRunning writes the case that is about to run, so that a process stopped by the race
+// detector (GORACE=halt_on_error=1) leaves its reproduction behind.
+func saveRunning(property, partName string, c interface{}) {
+	dir := os.Getenv("VERIF_FOUND_DIR")
+	if dir == "" {
+		return
+	}
+	raw, err := json.Marshal(c)
+	if err != nil {
+		return
+	}
+	b, _ := json.Marshal(SavedCase{Property: property, Part: partName, Case: raw})
+	os.MkdirAll(dir, 0o755)
+	os.WriteFile(filepath.Join(dir, "running.json"), b, 0o644)
+}
